@@ -149,6 +149,39 @@ def check_align(ctx, case):
             ctx.count('align_smooth_cycles_ok')
 
 
+def check_align_labels(ctx, case):
+    """Cycles given by the caller's own label vector (peak-to-peak or trough-to-trough cycles: the 2pi -> 0 wrap lies INSIDE each
+    labelled cycle): every column is the interpolant through that cycle's own (phase, value) samples, taken in order of phase."""
+    from emd import cycles as C
+    from scipy import interpolate as _interp
+    ip, lab, npoints, kind, a, b = (case[k] for k in ('ip', 'labels', 'npoints', 'interp_kind', 'a', 'b'))
+    x = a * np.sin(ip) + b * np.cos(2 * ip)
+    K = int(lab.max()) + 1
+    ctx.case(digest(ip, lab, npoints, kind, a, b), K > 0)
+    try:
+        with quiet():
+            avg, centres = C.phase_align(ip.copy(), x.copy(), cycles=lab.copy(), npoints=npoints, interp_kind=kind)
+    except Exception as e:
+        ctx.violation('align-exception:%s:own-labels' % type(e).__name__, 'phase_align with a label vector whose cycles contain the phase wrap raised %s: %s'
+                      % (type(e).__name__, str(e)[:100]), case)
+        return
+    avg = np.asarray(avg, dtype=float)
+    ctx.count('align_calls_with_own_labels')
+    if avg.shape != (npoints, K):
+        ctx.violation('align-shape', 'phase_align returned %s for %d labelled cycles, npoints %d' % (avg.shape, K, npoints), case)
+        return
+    for c in range(K):
+        idx = np.where(lab == c)[0]
+        o = np.argsort(ip[idx], kind='stable')
+        want = _interp.interp1d(ip[idx][o], x[idx][o], kind=kind, bounds_error=False, fill_value='extrapolate')(np.asarray(centres, dtype=float))
+        err = np.abs(avg[:, c] - want).max()
+        if not err <= 1e-9 * (abs(a) + abs(b) + 1e-12):
+            ctx.violation('align-own-labels', 'column %d is not the %s interpolant through the (phase, value) samples of the cycle labelled %d '
+                          '(a cycle that contains the phase wrap): max diff %.3g' % (c, kind, c, err), case)
+            return
+        ctx.count('align_own_label_cycles_ok')
+
+
 def check_bin(ctx, case):
     from emd import cycles as C
     ip, x, nbins, edges = case['ip'], case['x'], case['nbins'], case.get('edges')
@@ -235,7 +268,7 @@ def _guarded_ratio(v):
 # reducers that modify the vector they are handed, and one whose result depends on the caller's floating-point error policy
 FUNCS.update({'mut:trimmed_range': _trimmed_range, 'mut:demeaned_peak': _demeaned_peak, 'fp:guarded_ratio': _guarded_ratio})
 
-KINDS = {'stat': check_stat, 'align': check_align, 'bin': check_bin}
+KINDS = {'stat': check_stat, 'align': check_align, 'bin': check_bin, 'align_labels': check_align_labels}
 
 
 def gen_case(rng):
@@ -261,6 +294,18 @@ def gen_case(rng):
             fname = gens.pick(rng, ['sum', 'len'])
         return {'kind': 'stat', 'labels': labels, 'values': vals, 'func': fname,
                 'out': 'samples' if rng.random() < .35 else None}
+    if r < .5:
+        # the caller's own cycles (peak to peak, say): labels shifted by a fraction of a cycle against the phase wraps
+        ip, lens = monotone_phase(rng, int(rng.integers(3, 8)), lmin=12, lmax=200)
+        bounds = np.r_[0, np.cumsum(lens)]
+        lab = np.full(len(ip), -1)
+        frac = float(rng.uniform(.15, .85))
+        for c in range(len(lens) - 1):
+            s0 = bounds[c] + int(frac * lens[c])
+            e0 = bounds[c + 1] + int(frac * lens[c + 1])
+            lab[s0:e0] = c
+        return {'kind': 'align_labels', 'ip': ip, 'labels': lab, 'npoints': int(gens.pick(rng, [2, 8, 24, 48])),
+                'interp_kind': gens.pick(rng, ['linear', 'linear', 'quadratic', 'cubic', 'nearest']), 'a': float(rng.uniform(-3, 3)), 'b': float(rng.uniform(-2, 2))}
     if r < .75:
         explicit = bool(rng.random() < .5)
         # without an explicit cycle vector a wrap-free (single-cycle) phase legitimately has no cycles
